@@ -200,7 +200,7 @@ PROPS = {
     "C13": {
         "title": "Variable reordering preserves every function and every held edge",
         "rules": [callers_for("C13"), on_program(rules_layer.rule_cache_before_rewrite), on_program(rules_layer.rule_exchange_once),
-                  on_program(rules_sibling.rule_swap_loops), rules_own.rule_own_swap, on_program(rules_level.rule_index_kind), on_program(rules_level.rule_array_extent), on_program(rules_life.rule_copy_memberwise)],
+                  on_program(rules_sibling.rule_swap_loops), rules_own.rule_own_swap, on_program(rules_level.rule_index_kind), on_program(rules_level.rule_array_extent), on_program(rules_life.rule_copy_memberwise), on_program(rules_sibling.rule_heap_pop_order)],
         "explanation": STRUCTURAL + ". C13: in-place rewrite/relabel/handle-swap primitives are reachable only from the adjacent-swap routines; every root of the reordering "
                        "call cone clears the compute tables first; a swap routine that relabels levels exchanges the variable order exactly once; level numbers and variable numbers are kept apart "
                        "(what getVarByLevel returns goes only where a variable is expected, what getLevelByVar/getNodeLevel/getLevel return only where a level is expected — they differ exactly after a reordering); an array indexed by level / variable numbers has getNumVariables()+1 elements (defect D13 in six of the eight heuristics); the variable-order object is copied member by member from the members of the same name.",
